@@ -29,6 +29,12 @@ def check_ellipsoid(t, a, f, gm, w, cls, fexact=None):
         t.fail("C16|constructor|raises-%s|%s" % (type(e).__name__, cls), dict(case, err=str(e)[:200]))
         return
     t.calls += 1
+    # a second, different ellipsoid lives next to this one and is asked first (nothing of it may show in the answers below)
+    try:
+        D = ReferenceEllipsoid(a * 1.7, min(0.19, 0.5 * f + 0.01), gm * 0.3, w * 0.5)
+        D.normal_gravity(0.0), D.normal_gravity(90.0, 10.0), D.equatorial_normal_gravity, D.polar_normal_gravity
+    except Exception:  # noqa
+        D = None
     b = a * (1 - f)
     # derived constants: defining identities (exact rationals where f is one)
     fr = fexact if fexact is not None else Fraction(f)
@@ -69,7 +75,10 @@ def check_ellipsoid(t, a, f, gm, w, cls, fexact=None):
         t.fail("C16|normal-gravity|not-positive|%s" % cls, dict(case, ge=ge, gp=gp))
     sphere_ge, sphere_gp = g0 * (1 - 1.5 * m), g0 * (1 + m)
     if f <= 1e-4:
-        lim = (10 * f + 1e-5 + cond) * g0
+        # the gravity values inherit the cancellation of q0 = O(e'^3) from terms of size 3/e': relative rounding error ~ eps (3/e') / q0
+        # ~ 2e-15 / e'^4, entering ge and gp times m (measured against a 60-digit evaluation: 2e-5 at f = 1e-6, m = 0.034)
+        cond_g = (3e-15 / es ** 4 * m) if es > 0 else 0.0
+        lim = (10 * f + 1e-5 + cond + cond_g) * g0
         if not (abs(ge - sphere_ge) <= lim and abs(gp - sphere_gp) <= lim):
             t.fail("C16|normal-gravity|not-close-to-rotating-sphere|%s" % cls, dict(case, ge=ge, gp=gp, sphere_ge=sphere_ge, sphere_gp=sphere_gp, lim=lim))
     # Somigliana at Pythagorean latitudes, symmetry, end points, decreasing with height
@@ -95,6 +104,18 @@ def check_ellipsoid(t, a, f, gm, w, cls, fexact=None):
             if not (0 < gh < prev):
                 t.fail("C16|normal_gravity|not-decreasing-with-height|%s" % cls, dict(case, lat=latd, h=frac * a, got=gh, below=prev))
                 break
+            prev = gh
+    # a fine sweep of the whole height range (0 .. 0.5 % of a) at three latitudes: strictly decreasing, step by step
+    for latd in (0.0, 38.5, 90.0):
+        prev = float(E.normal_gravity(latd))
+        for k in range(1, 401):
+            hh = 0.005 * a * k / 400.0
+            gh = float(E.normal_gravity(latd, hh))
+            t.calls += 1
+            if not (0 < gh < prev):
+                t.fail("C16|normal_gravity|not-decreasing-with-height|%s" % cls, dict(case, lat=latd, h=hh, got=gh, below=prev, note="fine height sweep"))
+                break
+            prev = gh
             prev = gh
     if not abs(float(E.normal_gravity(0.0)) - ge) <= 1e-13 * ge or not abs(float(E.normal_gravity(90.0)) - gp) <= 1e-12 * gp:
         t.fail("C16|normal_gravity|end-points|%s" % cls, dict(case, g0=float(E.normal_gravity(0.0)), g90=float(E.normal_gravity(90.0)), ge=ge, gp=gp))
@@ -162,18 +183,41 @@ def extras(seed, n):
     return t
 
 
+def random_sets(args):
+    """seeded parameter sets over the whole quantifier: a in [1e5, 1e8] m, f = 0 or f in [1e-6, 0.2], m < 0.05, GM/a^2 in [0.5, 30]"""
+    seed, lo, hi = args
+    t = Tally()
+    for i in range(lo, hi):
+        r = core.rng(seed, "c16-random", i)
+        a = 10.0 ** r.uniform(5, 8)
+        f = 0.0 if i % 9 == 0 else 10.0 ** r.uniform(-6, math.log10(0.2))
+        g0 = 10.0 ** r.uniform(math.log10(0.5), math.log10(30.0))
+        mt = 0.0 if i % 7 == 0 else r.uniform(0.0, 0.049)
+        gm = g0 * a * a
+        w = math.sqrt(mt * gm / (a ** 3 * (1 - f)))
+        cls = "f=0" if f == 0 else ("f<=1e-4" if f <= 1e-4 else "random")
+        check_ellipsoid(t, a, f, gm, w, cls)
+    return t
+
+
 def run(chk):
+    quick = chk.tier == "quick"
     chk.rule = ("parameter sets emitted by TLC (a in {1,2,6} units, f in {0, 1/100, 3/50, 1/10, 1/5}, GM, w^2 classes) x 3 unit decades x 2 "
                 "gravity scales, plus Fraction-mirror flattenings (0, 1e-6 .. 1/298.257 .. 1/5) x 4 semi-major axes x 4 (g, m) classes and the "
-                "shipped planets; 10 Pythagorean latitudes x 6 heights each; distinct = distinct (class, a, f, GM, w); none trivial")
+                "shipped planets, plus seeded random parameter sets over the whole quantifier (320 quick / 48000 thorough); 10 Pythagorean latitudes x 6 heights each; distinct = distinct (class, a, f, GM, w); none trivial")
     chk.assume("algebraic constants 1e-12 relative; Pizzetti residual 1e-12 relative (+ the eps/e'^3 conditioning of q0 for f -> 0); "
-               "Somigliana 1e-12; continuity |g(f) - g(0)| <= (10 f + 1e-5) GM/a^2 for f <= 1e-4")
+               "Somigliana 1e-12; continuity |g(f) - g(0)| <= (10 f + 1e-5 + 3e-15 m / e'^4) GM/a^2 for f <= 1e-4 (the last term is the rounding "
+               "noise of the closed form itself at tiny flattening)")
     res = tlc.run_tlc("MC_Ellipsoid", core.spec_cfg("MC_Ellipsoid"), timeout=600)
     chk.add_tlc("Ellipsoid[parameter grid x Pythagorean latitudes]", res)
     if res.violated:
         chk.fail("C16|spec|%s" % res.violated, {"tlc": res.output[-2000:]})
     core.merge(chk, core.pmap(replay_cases, res.out_records))
     core.merge(chk, [extras(chk.seed, 0)])
+    n = 320 if quick else 48000
+    import multiprocessing as mp
+    with mp.get_context("fork").Pool(16) as pool:
+        core.merge(chk, pool.map(random_sets, [(chk.seed, k, k + n // 16) for k in range(0, n, n // 16)]))
     chk.exhaustive = True
 
 
